@@ -133,6 +133,8 @@ impl<'tcx> Cx<'tcx> {
         let mut has_dyn = false;
         let mut has_fnptr = false;
         let mut closures = vec![];
+        let mut fndefs = vec![];
+        let mut params: Vec<String> = vec![];
         for ga in t.walk() {
             if let Some(t) = ga.as_type() {
                 match t.kind() {
@@ -147,11 +149,20 @@ impl<'tcx> Cx<'tcx> {
                     ty::Dynamic(..) => has_dyn = true,
                     ty::FnPtr(..) => has_fnptr = true,
                     ty::Closure(d, _) => closures.push(self.path(*d)),
+                    ty::FnDef(d, _) => fndefs.push(self.path(*d)),
+                    ty::Param(p) => {
+                        let n = p.name.to_string();
+                        if !params.contains(&n) {
+                            params.push(n)
+                        }
+                    }
                     _ => {}
                 }
             }
         }
         obj(vec![
+            ("fndefs", arr(fndefs.iter().map(|s| esc(s)).collect())),
+            ("params", arr(params.iter().map(|s| esc(s)).collect())),
             ("adts", arr(adts.iter().map(|s| esc(s)).collect())),
             ("ref", has_ref.to_string()),
             ("rawptr", has_rawptr.to_string()),
@@ -504,6 +515,22 @@ impl<'tcx> Cx<'tcx> {
                             ci.push(("callee_trait", esc(&self.path(tr))));
                         }
                         ci.push(("callee_name", esc(tcx.item_name(*cdid).as_str())));
+                        // closure / fn-item type arguments the callee is allowed to *call* (bounded by an Fn* trait)
+                        let mut callable = vec![];
+                        let preds = tcx.predicates_of(*cdid).instantiate(tcx, cargs);
+                        for cl in preds.predicates.iter() {
+                            let cl = cl.skip_norm_wip();
+                            if let Some(tp) = cl.as_trait_clause() {
+                                let tp = tp.skip_binder();
+                                if tcx.fn_trait_kind_from_def_id(tp.def_id()).is_some() {
+                                    match tp.self_ty().kind() {
+                                        ty::Closure(d, _) | ty::FnDef(d, _) => callable.push(esc(&self.path(*d))),
+                                        _ => {}
+                                    }
+                                }
+                            }
+                        }
+                        ci.push(("callable_args", arr(callable)));
                         let mut resolved = "null".to_string();
                         let mut rkind = "null".to_string();
                         let mut rcrate = "null".to_string();
@@ -563,6 +590,9 @@ impl<'tcx> Cx<'tcx> {
                         AssertKind::OverflowNeg(_) => "overflow_neg".to_string(),
                         AssertKind::DivisionByZero(_) => "div_zero".to_string(),
                         AssertKind::RemainderByZero(_) => "rem_zero".to_string(),
+                        AssertKind::MisalignedPointerDereference { .. } => "ptrcheck".to_string(),
+                        AssertKind::NullPointerDereference => "ptrcheck".to_string(),
+                        AssertKind::InvalidEnumConstruction(_) => "ptrcheck".to_string(),
                         _ => "other".to_string(),
                     };
                     let mut ai = vec![
